@@ -1456,7 +1456,7 @@ func genServiceCase(g *gen, c int, tier string, w *bufio.Writer, flavour int) {
 		s.ro = startRO
 		s.emit("open", "mode=replica", fmt.Sprintf("ro=%d", b2i(startRO)), fmt.Sprintf("mem=%d", mem))
 		for i, n := 0, 3+g.intn(6); i < n; i++ {
-			if startRO {
+			if startRO || g.chance(1, 2) { // also before the switch to read-only: the applier is in use while the engine is still writable
 				s.emit("apply", "1", s.okKey(), s.val())
 			} else {
 				s.emit("rpc", "Put", s.okKey(), s.val())
